@@ -6,14 +6,14 @@ import tempfile
 from click.testing import CliRunner
 
 
-def run_cli(blob, args):
-    """run `pykdebugparser <args...> <dump>`; returns (exit_code, output_lines, exception or None)."""
+def run_cli(blob, args, env=None):
+    """run `pykdebugparser <args...> <dump>`; returns (exit_code, output_lines, exception or None). env: extra environment variables."""
     from pykdebugparser.__main__ import cli
     fd, path = tempfile.mkstemp(prefix='verif_cli_', suffix='.bin')
     try:
         with os.fdopen(fd, 'wb') as f:
             f.write(blob)
-        r = CliRunner().invoke(cli, list(args) + [path], catch_exceptions=True)
+        r = CliRunner().invoke(cli, list(args) + [path], catch_exceptions=True, env=env)
         out = r.output.split('\n')
         if out and out[-1] == '':
             out = out[:-1]
